@@ -129,6 +129,7 @@ structure Effect (s s' : Shared) : Prop where
   handled : s'.handled = s.handled
   rxOpen : s'.rxOpen = s.rxOpen
   rxStopped : s'.rxStopped = s.rxStopped
+  stoppedByOther : s'.stoppedByOther = s.stoppedByOther
   drainedExits : s'.drainedExits = s.drainedExits
   status : s.status ≤ s'.status
   closed : s.word.closed = true → s'.word.closed = true
@@ -141,7 +142,7 @@ theorem stepThread_effect {s s' : Shared} {stack stack' : List Frame}
   cases stack with
   | nil => simp [stepThread] at hs
   | cons f rest =>
-    obtain ⟨pc, id, late, ops, bf⟩ := f
+    obtain ⟨pc, id, late, ops, bf, sk⟩ := f
     cases pc <;> (try (cases ops <;> try (rename_i op ops'; cases op))) <;>
     simp only [stepThread, finish, startOp] at hs <;> (repeat' (split at hs)) <;>
     (try (simp only [Option.some.injEq, Prod.mk.injEq, reduceCtorEq] at hs)) <;>
@@ -211,5 +212,68 @@ theorem prefix_unique {α : Type} (x : α) (a1 a2 b1 b2 : List α) (h1 : x ∉ a
       simp only [List.cons_append, List.cons.injEq] at e
       obtain ⟨rfl, e⟩ := e
       rw [ih a2 (fun h => h1 (List.mem_cons_of_mem _ h)) (fun h => h2 (List.mem_cons_of_mem _ h)) e]
+
+/-- the marker, once in a marker-last list, is its last element: a prefix containing it is everything -/
+theorem markerLast_prefix_all (a b : List Item) (h : markerLast (a ++ b) = true) (hm : Item.drain ∈ a) :
+    b = [] := by
+  obtain ⟨a1, a2, rfl⟩ := List.append_of_mem hm
+  have := markerLast_split (a1 ++ Item.drain :: a2 ++ b) a1 (a2 ++ b) h (by simp)
+  simpa using (List.append_eq_nil_iff.mp this).2
+
+
+/-! ### Uninterleaved runs of one thread -/
+
+theorem step_t {g : G} {i : Nat} {stack stack' : List Frame} {s' : Shared}
+    (h : g.threads[i]? = some stack) (hs : stepThread g.sh stack = some (s', stack')) :
+    step g (.t i) = { sh := s', threads := g.threads.set i stack' } := by
+  simp [step, h, hs]
+
+theorem get_set_self {g : G} {i : Nat} {stack x : List Frame} (s' : Shared)
+    (h : g.threads[i]? = some stack) :
+    ({ sh := s', threads := g.threads.set i x } : G).threads[i]? = some x := by
+  have hlt : i < g.threads.length := (List.getElem?_eq_some_iff.mp h).1
+  simp [List.getElem?_set_self hlt]
+
+/-- thread `i` runs `n` steps from stack `stack` -/
+def runThread (s : Shared) (stack : List Frame) : Nat → Shared × List Frame
+  | 0 => (s, stack)
+  | n + 1 =>
+    match stepThread s stack with
+    | some (s', stack') => runThread s' stack' n
+    | none => (s, stack)
+
+theorem runThread_none {s : Shared} {stack : List Frame} (h : stepThread s stack = none) (n : Nat) :
+    runThread s stack n = (s, stack) := by
+  cases n <;> simp [runThread, h]
+
+theorem run_replicate {g : G} {i : Nat} {stack : List Frame} (n : Nat)
+    (h : g.threads[i]? = some stack) :
+    run g (List.replicate n (.t i)) =
+      { sh := (runThread g.sh stack n).1, threads := g.threads.set i (runThread g.sh stack n).2 } := by
+  induction n generalizing g stack with
+  | zero =>
+    simp only [List.replicate_zero, run, List.foldl_nil, runThread]
+    have : g.threads.set i stack = g.threads := by
+      have hlt : i < g.threads.length := (List.getElem?_eq_some_iff.mp h).1
+      have := (List.getElem?_eq_some_iff.mp h).2
+      rw [← this]; simp
+    rw [this]
+  | succ n ih =>
+    simp only [List.replicate_succ, run, List.foldl_cons, runThread]
+    cases hs : stepThread g.sh stack with
+    | none =>
+      have : step g (.t i) = g := by simp [step, h, hs]
+      rw [this]
+      have := ih (g := g) h
+      simp only [run] at this
+      rw [this, runThread_none hs]
+    | some r =>
+      obtain ⟨s', stack'⟩ := r
+      rw [step_t h hs]
+      have := ih (g := { sh := s', threads := g.threads.set i stack' }) (get_set_self s' h)
+      simp only [run] at this
+      rw [this]
+      simp
+
 
 end Admission
